@@ -145,6 +145,26 @@ def case_interchange(ctx, s: Subject):
         return ls_rows(pa.chunked_array(out) if isinstance(out, pa.Array) else out, ty)
     ctx.case("arrow.export_as_list_struct_type", s.desc(), call_real(cast_ls), wl(m_ls), wl(s_ls), hyp=hyp, features=feats,
              nontrivial=nt)
+    # the list-struct orientation through pandas' table conversion: `Table.to_pandas` hands the list-of-structs
+    # column to `NestedDtype.__from_arrow__` (the pandas metadata / a types_mapper names the nested dtype)
+    if "ok" in la:
+        def table_ls_metadata():
+            nf = NestedFrame({"nest": ser.reset_index(drop=True)})
+            tbl = pa.Table.from_pandas(nf, schema=pa.schema([pa.field("nest", lst)]), preserve_index=False)
+            assert tbl.column("nest").type.equals(lst), "schema request not honoured"
+            back = tbl.to_pandas()
+            assert isinstance(back["nest"].dtype, NestedDtype), f"came back as {back['nest'].dtype}"
+            return colres(back["nest"].array)
+        ctx.case("arrow.table_list_struct_to_pandas", s.desc(), call_real(table_ls_metadata), mcol(ans["model"]) if False else None,
+                 spec_same, hyp=hyp, features=feats, nontrivial=nt, mode="ls_missing")
+
+        def table_ls_mapper():
+            tbl = pa.table({"nest": la["ok"]})
+            back = tbl.to_pandas(types_mapper=lambda t: NestedDtype(st) if t.equals(lst) else None)
+            assert isinstance(back["nest"].dtype, NestedDtype), f"came back as {back['nest'].dtype}"
+            return colres(back["nest"].array)
+        ctx.case("arrow.table_list_struct_types_mapper", s.desc(), call_real(table_ls_mapper), None, spec_same, hyp=hyp,
+                 features=feats, nontrivial=nt, mode="ls_missing")
     bad = pa.struct([pa.field(n, pa.list_(pa.int64())) for n, _ in ty] + [pa.field("extra", pa.list_(pa.int64()))])
     real = call_real(lambda: str(pa.array(ext, type=bad).type))
     ok = "err" in real or real.get("ok") == str(bad)
